@@ -1,0 +1,18 @@
+//go:build !verif
+
+// Package verif holds the verification hooks used by the external
+// model-based checking harness. Without the "verif" build tag every
+// hook is an empty, inlinable function.
+package verif
+
+// On reports whether the hooks are compiled in.
+const On = false
+
+// Ev records one event (name followed by key/value pairs).
+func Ev(name string, kv ...interface{}) {}
+
+// Yield is a scheduling point between two critical sections.
+func Yield(point string, key interface{}) {}
+
+// CrashPoint kills the process when selected by the environment.
+func CrashPoint(point string) {}
